@@ -288,8 +288,28 @@ func cmdRun(args []string) int {
 					ok = hasLine(lines, "PANIC") || hasLine(lines, "CRASH")
 				case "terminates-within-budget":
 					ok = hasLine(lines, "CRASH") // killed by the time limit
-				case "globals-unchanged":
-					ok = false
+				case "globals-unchanged", "no-nondeterminism-source":
+					// a write to shared state / a nondeterminism source is confirmed when the
+					// race detector fires on the concurrent probe, or when repeated native runs
+					// of the same input disagree
+					if text, has := obsValue(lines, "text"); has {
+						if raced, err := twin.raceProbe(text); err == nil && raced {
+							ok = true
+						}
+					}
+					if !ok {
+						rep := make([]twinReq, 12)
+						for j := range rep {
+							rep[j] = reqs[i]
+						}
+						if again, err := twin.RunBatch(rep); err == nil {
+							for _, l2 := range again {
+								if strings.Join(l2, "\n") != strings.Join(lines, "\n") {
+									ok = true
+								}
+							}
+						}
+					}
 				default:
 					ok = hasLine(lines, "ASSERT-FAIL "+id)
 				}
@@ -479,7 +499,15 @@ func cmdReplay(args []string) int {
 		fmt.Println(" ", l)
 	}
 	fail := false
-	if rf.Assertion == "terminates-within-budget" {
+	if rf.Assertion == "globals-unchanged" || rf.Assertion == "no-nondeterminism-source" {
+		if text, has := obsValue(outs[0], "text"); has {
+			raced, _ := twin.raceProbe(text)
+			fail = raced
+			if raced {
+				fmt.Println("  race detector: DATA RACE on the concurrent probe of this input")
+			}
+		}
+	} else if rf.Assertion == "terminates-within-budget" {
 		outs, _ = twin.RunBatchT([]twinReq{{Harness: rf.Harness, Params: rf.Params, Vals: rf.Vals}}, 20)
 		fail = hasLine(outs[0], "CRASH")
 	} else if rf.Assertion == "no-panic" {
